@@ -1,6 +1,18 @@
 package main
 
 func init() {
+	// MaxPreempt(k): the preemption bound of this (concurrent) harness, overriding the property's default.
+	symNatives["MaxPreempt"] = func(m *Machine, fr *frame, a []Value) Value {
+		if m.sched != nil {
+			m.sched.maxPreempt = int(m.mustConst(a[0], "MaxPreempt"))
+		}
+		return nil
+	}
+	// FixRandom(): math/rand draws return a fixed value (skiplist towers of height 1) instead of a symbolic choice.
+	symNatives["FixRandom"] = func(m *Machine, fr *frame, a []Value) Value {
+		m.fixRandom = true
+		return nil
+	}
 	// Atomic(f): one scheduling point, then f runs without preemption (harness monitors).
 	symNatives["Atomic"] = func(m *Machine, fr *frame, a []Value) Value {
 		m.visible(fr, "harness-atomic")
